@@ -51,3 +51,61 @@ def run_cli(argv, stdout=None, stderr=None):
 def write_file(path, data):
     with open(path, 'wb') as f:
         f.write(bytes(data))
+
+
+# ---------------------------------------------------------------------------
+# plugin seams
+# ---------------------------------------------------------------------------
+PLUGIN_PKGS = ('udparsers', 'srcparsers', 'calloutparsers')
+_import_log = []
+_orig_import_module = None
+
+
+def install_fixture_plugins():
+    """udparsers / srcparsers / calloutparsers are regular packages bound to the repo:
+    fixture modules are found only after appending to the package __path__."""
+    import importlib
+    here = os.path.join(os.path.dirname(os.path.abspath(__file__)), 'fixtures')
+    if here not in sys.path:
+        sys.path.append(here)
+    for pkg in PLUGIN_PKGS:
+        m = importlib.import_module(pkg)
+        p = os.path.join(here, 'plugins', pkg)
+        if p not in list(m.__path__):
+            m.__path__.append(p)
+    importlib.invalidate_caches()
+
+
+def install_import_recorder():
+    """records every importlib.import_module(name) made while decoding"""
+    global _orig_import_module
+    import importlib
+    if _orig_import_module is None:
+        _orig_import_module = importlib.import_module
+
+        def recording(name, package=None):
+            _import_log.append(name)
+            return _orig_import_module(name, package)
+        importlib.import_module = recording
+    return _import_log
+
+
+def plugin_modules_loaded():
+    return sorted(k for k in sys.modules if k.split('.')[0] in PLUGIN_PKGS and '.' in k)
+
+
+def clear_plugin_caches(unload=False):
+    import pel.peltool.parse_user_data as pud
+    import pel.peltool.src as srcmod
+    pud.userDataParsers.clear()
+    srcmod.srcParsers.clear()
+    srcmod.calloutParsers.clear()
+    try:
+        import srcparsers.osrc.osrc as osrc
+        osrc.osrcParsers.clear()
+    except Exception:
+        pass
+    if unload:
+        for k in plugin_modules_loaded():
+            if k != 'srcparsers.osrc.osrc' or True:
+                del sys.modules[k]
